@@ -1046,7 +1046,10 @@ class TreeSim(WorldBase):
                 info["written"].add(c)
         elif act == "zero":
             self._write(zsl, point, zr, "set", zsl.default)
+            info["written"].add(c)
             self.probe("populate_wrote_default")
+            if ob._k(c) in info["z_before"]:
+                self.probe("populate_reset_existing_to_default")
         else:
             if ob._k(c) in info["z_before"]:
                 self.probe("populate_left_existing_alone")
@@ -1065,7 +1068,15 @@ class TreeSim(WorldBase):
         offered = set(ob._k(c) for c in info["got"])
         for c in info["got"]:
             kc = ob._k(c)
-            if kc in info["z_before"] or kc in info.get("tainted", ()):
+            if kc in info.get("tainted", ()):
+                continue
+            if kc in info["z_before"]:
+                # a pre-existing element the body left entirely alone: not prescribed. One the body
+                # wrote through and set back to the default must be gone (leaf level)
+                p = now.get(kc)
+                if c in info["written"] and isinstance(p, Payload) and p.value == zsl.default:
+                    self.V("C05", "C05.leaves-nothing-behind", "populate",
+                           f"the body set {info['zpre'] + (c,)} back to the default, yet z still stores an explicit default there")
                 continue
             p = now.get(kc)
             if p is None:
